@@ -3,6 +3,7 @@ C04 — muxer output is always whole 188-byte packets; byte counts are exact; a 
 -/
 import Astits.Model.Mux
 import Astits.Spec.Mux
+import Astits.Proofs.MuxWhole
 namespace Astits.C04
 
 /-- `writePacket` either rejects the packet having emitted nothing (the model's error carries no bytes), or
@@ -92,5 +93,155 @@ theorem spec_unknown_pid_appends_nothing (s : Spec.MuxSpec) (d : MuxerData)
 
 def hdrEx : PacketHeader := { continuityCounter := 5, hasAdaptationField := false, hasPayload := true, payloadUnitStartIndicator := true, pid := 0x100, transportErrorIndicator := false, transportPriority := false, transportScramblingControl := 0 }
 example : hdrBytes hdrEx = [0x41, 0x00, 0x15] := by decide
+
+/-! ## C04 on the muxer MODEL: every call, any state, any history (proofs: `Astits/Proofs/MuxWhole.lean`)
+
+No invariant on the muxer state and no well-formedness of the caller's data is assumed anywhere below. -/
+
+open MuxWhole (Whole AllWhole OutOK Call call hist written counted returned)
+
+/-- `writePacket` at full strength (compare `writePacket_ok_length`, which needs the hypothesis `hc`): ANY packet a
+caller can build — inconsistent TransportPrivateDataLength, negative StuffingLength, oversize fields — is either
+rejected / panics having emitted nothing, or comes out as exactly `target` bytes.  (The adaptation field never
+occupies more bytes than `calcPacketAdaptationFieldSize` reserves; if it occupies fewer, 0xff padding fills up.) -/
+theorem writePacket_length (p : Packet) (target : Nat) (bs : Bytes) (h : writePacket p target = .ok bs) :
+    bs.length = target := MuxWhole.writePacket_length p target bs h
+
+/-- … and starts with the sync byte -/
+theorem writePacket_whole (p : Packet) (bs : Bytes) (h : writePacket p 188 = .ok bs) :
+    bs.length = 188 ∧ bs.head? = some 0x47 := MuxWhole.writePacket_whole p bs h
+
+/-- **`WriteData`, any state, any data**: every chunk handed to the writer is a whole packet; unless the call
+panicked the returned count is the number of bytes handed over — error results included (the model's error results
+of `WriteData` DO report the bytes written before the failure: tables and earlier packets); a panicking call is
+modelled with `n = 0`, no error. -/
+theorem writeData_whole (m : Mux) (d : MuxerData) :
+    (∀ c ∈ (m.writeData d).1.chunks, c.length = 188 ∧ c.head? = some 0x47) ∧
+    ((m.writeData d).1.panic = false → (m.writeData d).1.n = (chunksLen (m.writeData d).1.chunks : Int)) ∧
+    ((m.writeData d).1.panic = true → (m.writeData d).1.n = 0 ∧ (m.writeData d).1.err = none) :=
+  let h := MuxWhole.writeData_ok m d
+  ⟨h.whole, h.count, h.panicked⟩
+
+/-- **`WriteTables`** (a failing or panicking call hands nothing to the writer and returns 0) -/
+theorem writeTablesCall_whole (m : Mux) :
+    (∀ c ∈ m.writeTablesCall.1.chunks, c.length = 188 ∧ c.head? = some 0x47) ∧
+    (m.writeTablesCall.1.panic = false → m.writeTablesCall.1.n = (chunksLen m.writeTablesCall.1.chunks : Int)) ∧
+    (m.writeTablesCall.1.panic = true → m.writeTablesCall.1.n = 0 ∧ m.writeTablesCall.1.err = none ∧
+      m.writeTablesCall.1.chunks = []) :=
+  let h := MuxWhole.writeTablesCall_ok m
+  ⟨h.whole, h.count, fun hp => ⟨(h.panicked hp).1, (h.panicked hp).2, MuxWhole.writeTablesCall_panic_chunks m hp⟩⟩
+
+/-- **`WritePacket` with an arbitrary caller packet** -/
+theorem writePacketCall_whole (m : Mux) (p : Packet) :
+    (∀ c ∈ (m.writePacketCall p).1.chunks, c.length = 188 ∧ c.head? = some 0x47) ∧
+    ((m.writePacketCall p).1.panic = false →
+      (m.writePacketCall p).1.n = (chunksLen (m.writePacketCall p).1.chunks : Int)) ∧
+    ((m.writePacketCall p).1.panic = true → (m.writePacketCall p).1.n = 0 ∧ (m.writePacketCall p).1.err = none ∧
+      (m.writePacketCall p).1.chunks = []) :=
+  let h := MuxWhole.writePacketCall_ok m p
+  ⟨h.whole, h.count, fun hp => ⟨(h.panicked hp).1, (h.panicked hp).2, MuxWhole.writePacketCall_panic_chunks m p hp⟩⟩
+
+/-- panics are caller misuse (1): `WritePacket` panics exactly on a packet flagged HasAdaptationField whose
+adaptation field is nil, or has a set flag (PCR, OPCR, extension, DTSNextAccessUnit) with a nil pointer behind it -/
+theorem writePacketCall_panic_iff (m : Mux) (p : Packet) :
+    (m.writePacketCall p).1.panic = true ↔
+      (p.header.hasAdaptationField = true ∧
+        (p.adaptationField.isNone = true ∨ (p.adaptationField.map afNilDeref).getD false = true)) :=
+  MuxWhole.writePacketCall_panic_iff m p
+
+/-- panics are caller misuse (2): a panicking `WriteData` either panicked while generating the tables (a nil pointer
+in a registered stream's descriptors; nothing was written), or its data is not `DataWF` (nil pointer behind a set
+flag of the PES optional header / adaptation field, or PES header bytes longer than the announced length).  Only in
+the second case can whole packets (the tables, an adaptation-field-only packet) already have reached the writer. -/
+theorem writeData_panic_cases (m : Mux) (d : MuxerData) (h : (m.writeData d).1.panic = true) :
+    ((m.retransmitTables (MuxCounters.dataForce m d)).1 = .panic ∧ (m.writeData d).1.chunks = []) ∨
+      ¬ MuxCounters.DataWF d :=
+  MuxWhole.writeData_panic_cases m d h
+
+/-- **every call** (`Call` = AddElementaryStream | RemoveElementaryStream | SetPCRPID | WriteTables | WriteData |
+WritePacket with any packet; `call m c` = result and new state) -/
+theorem call_whole (m : Mux) (c : Call) :
+    (∀ ch ∈ (call m c).1.chunks, ch.length = 188 ∧ ch.head? = some 0x47) ∧
+    ((call m c).1.panic = false → (call m c).1.n = (chunksLen (call m c).1.chunks : Int)) ∧
+    ((call m c).1.panic = true → (call m c).1.n = 0 ∧ (call m c).1.err = none) :=
+  let h := MuxWhole.call_ok m c
+  ⟨h.whole, h.count, h.panicked⟩
+
+/-- **history form**, from ANY state `m` and for ANY list of calls, rejected and panicking ones included
+(`hist m cs` = the results of the calls in order; `written` = all chunks handed to the writer, in order;
+`counted` = sum of the returned counts; `returned` = the calls that did not panic):
+1. every chunk is a whole packet beginning with 0x47;
+2. the byte stream the writer received has length 188 × (number of chunks);
+3. the sum of the returned counts equals the bytes written by the calls that returned;
+4. if no call panicked, the sum of the returned counts equals the length of the byte stream. -/
+theorem history_whole (m : Mux) (cs : List Call) :
+    (∀ ch ∈ written (hist m cs).1, ch.length = 188 ∧ ch.head? = some 0x47) ∧
+    (written (hist m cs).1).flatten.length = 188 * (written (hist m cs).1).length ∧
+    counted (hist m cs).1 = ((written (returned (hist m cs).1)).flatten.length : Int) ∧
+    ((∀ o ∈ (hist m cs).1, o.panic = false) →
+      counted (hist m cs).1 = ((written (hist m cs).1).flatten.length : Int)) := by
+  have hall := MuxWhole.hist_all_ok m cs
+  have hw := MuxWhole.written_whole _ hall
+  have hc := MuxWhole.counted_eq _ hall
+  refine ⟨hw, ?_, ?_, ?_⟩
+  · rw [← MuxWhole.chunksLen_flatten]; exact hw.chunksLen
+  · rw [← MuxWhole.chunksLen_flatten]; exact hc
+  · intro hp
+    rw [← MuxWhole.chunksLen_flatten, hc, MuxWhole.returned_of_noPanic _ hp]
+
+/-- the same for the histories of `MuxCounters.run` from `newMux period` (the operations of C05/C01: no
+`WritePacket`): `run` collects exactly the chunks of `hist`, so its output is whole packets, 188 × count bytes -/
+theorem run_whole (period : Nat) (ops : List MuxCounters.Op) :
+    (∀ ch ∈ (MuxCounters.run (newMux period) ops).1, ch.length = 188 ∧ ch.head? = some 0x47) ∧
+    (MuxCounters.run (newMux period) ops).1.flatten.length = 188 * (MuxCounters.run (newMux period) ops).1.length ∧
+    (MuxCounters.run (newMux period) ops).1 = written (hist (newMux period) (ops.map .op)).1 := by
+  have e : written (hist (newMux period) (ops.map .op)).1 = (MuxCounters.run (newMux period) ops).1 :=
+    congrArg Prod.fst (MuxWhole.hist_ops (newMux period) ops)
+  have h := history_whole (newMux period) (ops.map .op)
+  rw [e] at h
+  exact ⟨h.1, h.2.1, e.symm⟩
+
+/-! ### non-vacuity: a history with every kind of call, including rejected calls, an inconsistent caller packet,
+and a panicking call -/
+
+/-- a caller packet whose adaptation field announces 200 private bytes it does not have, with a negative
+StuffingLength: still comes out as exactly 188 bytes -/
+def oddPkt : Packet :=
+  { header := { hdrEx with hasAdaptationField := true },
+    adaptationField := some { hasTransportPrivateData := true, transportPrivateDataLength := 200,
+                              transportPrivateData := [1, 2, 3], stuffingLength := -5 },
+    payload := [9, 9, 9] }
+/-- misuse: HasAdaptationField with a nil adaptation field -/
+def nilPkt : Packet := { header := { hdrEx with hasAdaptationField := true }, adaptationField := none }
+/-- rejected: payload too long -/
+def bigPkt : Packet := { header := hdrEx, payload := List.replicate 185 0 }
+
+def exCalls : List Call :=
+  [.op (.data { pid := 0x100, pes := { data := [1, 2, 3] } }),                 -- rejected: unknown PID
+   .op (.add { elementaryPID := 0x100, streamType := 0x1b }),
+   .op (.data { pid := 0x100, pes := { data := [1, 2, 3] } }),                 -- rejected: PCR PID invalid
+   .op (.setPCR 0x100),
+   .op (.data { pid := 0x100, pes := { data := List.replicate 400 7, header := { streamID := 0xe0 } } }),
+   .packet oddPkt, .packet nilPkt, .packet bigPkt,
+   .op .tables,
+   .op (.add { elementaryPID := 0x100, streamType := 0x1b })]                  -- rejected: PID exists
+
+example : ((hist (newMux 40) exCalls).1.map fun o => (o.n, o.err, o.panic, o.chunks.length)) =
+    [(0, some .pidNotFound, false, 0), (0, none, false, 0), (0, some .pcrInvalid, false, 0), (0, none, false, 0),
+     (940, none, false, 5), (188, none, false, 1), (0, none, true, 0), (0, some .other, false, 0),
+     (376, none, false, 2), (0, some .pidExists, false, 0)] ∧
+    counted (hist (newMux 40) exCalls).1 = 1504 ∧ (written (hist (newMux 40) exCalls).1).length = 8 ∧
+    (written (hist (newMux 40) exCalls).1).flatten.length = 1504 := by decide +kernel
+
+/-- the `panic = false` premise of the count clause is necessary: a `WriteData` whose adaptation field has HasPCR set
+but a nil PCR panics in the first packet AFTER the two table packets have reached the writer (Go: the panic unwinds
+`WriteData`, no count is returned; model: `n = 0`, 2 chunks) -/
+def panicCalls : List Call :=
+  [.op (.add { elementaryPID := 0x100, streamType := 0x1b }), .op (.setPCR 0x100),
+   .op (.data { pid := 0x100, adaptationField := some { hasPCR := true, pcr := none },
+                pes := { data := [1, 2, 3], header := { streamID := 0xe0 } } })]
+
+example : ((hist (newMux 40) panicCalls).1.map fun o => (o.n, o.err, o.panic, o.chunks.length)) =
+    [(0, none, false, 0), (0, none, false, 0), (0, none, true, 2)] := by decide +kernel
 
 end Astits.C04
